@@ -227,8 +227,7 @@ pub fn lockstep(sim: &mut SimState, conv: &Conv) {
     }
     gates.retain(|g| g.pos < total);
     sim.gates = gates;
-    let c = conv.clone();
-    sim.gate_fn = Some(Box::new(move |flushed| complete_replies(flushed, &c)));
+    sim.gate_fn = Some(Box::new(incremental_replies(conv)));
 }
 
 /// part 2: after the simulated transport exists
